@@ -305,6 +305,19 @@ func (fx *fctx) visibleBindings(st *State, pos token.Pos) map[string]*Value {
 	return out
 }
 
+// hasHook: a ghost hook is attached to this program point.
+func (fx *fctx) hasHook(where string, n int, callee string) bool {
+	if fx.con == nil {
+		return false
+	}
+	for _, h := range fx.con.Hooks {
+		if h.Where == where && h.N == n && h.Callee == callee {
+			return true
+		}
+	}
+	return false
+}
+
 // runHooks executes ghost statements attached to a program point.
 func (fx *fctx) runHooks(st *State, where string, n int, callee string, node ast.Node, rets []*Value) {
 	if fx.con == nil || st.dead || fx.spec {
